@@ -6,8 +6,7 @@ import Nstd.Variant.Val
   every `DblSem`; this instance is validated against the real code and against Python's
   floats by the correspondence run only.
 
-  `ofStr` covers what `strtod` accepts except hexadecimal floats (`0x…`), which the
-  generators do not produce.
+  `ofStr` covers what `strtod` accepts: decimal with exponent, hexadecimal floats, inf, nan.
 -/
 namespace Nstd.Variant
 
@@ -84,6 +83,31 @@ def takeDigits : Str → Str × Str
 
 def startsWithCI (s : Str) (p : Str) : Bool := (s.take p.length).map lower == p
 
+def hexDig (c : Nat) : Option Nat :=
+  if 48 ≤ c ∧ c ≤ 57 then some (c - 48)
+  else if 97 ≤ c ∧ c ≤ 102 then some (c - 87)
+  else if 65 ≤ c ∧ c ≤ 70 then some (c - 55)
+  else none
+
+def takeHex : Str → Str × Str
+  | [] => ([], [])
+  | c :: t => if (hexDig c).isSome then let (a, b) := takeHex t; (c :: a, b) else ([], c :: t)
+
+def hexVal' : Str → Nat → Nat
+  | [], acc => acc
+  | c :: t, acc => hexVal' t (acc * 16 + (hexDig c).getD 0)
+
+/-- `0x` / `0X` followed by at least one hexadecimal digit (possibly after the point) -/
+def isHexFloat (s : Str) : Bool :=
+  match s with
+  | 48 :: x :: t =>
+    (x == 120 || x == 88) &&
+      (match t with
+       | 46 :: d :: _ => (hexDig d).isSome
+       | d :: _ => (hexDig d).isSome
+       | [] => false)
+  | _ => false
+
 /-- `strtod(s, 0)` of a C string -/
 def dOfStr (s : Str) : Nat :=
   let s := s.dropWhile isSpace
@@ -94,6 +118,29 @@ def dOfStr (s : Str) : Nat :=
   let sg : Nat := if neg then 2 ^ 63 else 0
   if startsWithCI s [105, 110, 102] then sg + 2047 * 2 ^ 52
   else if startsWithCI s [110, 97, 110] then sg + 2047 * 2 ^ 52 + 2 ^ 51
+  else if isHexFloat s then
+    let (ih, r) := takeHex (s.drop 2)
+    let (fh, r) := match r with
+      | 46 :: t => takeHex t
+      | r => ([], r)
+    let ex : Int := match r with
+      | c :: t =>
+        if c == 112 || c == 80 then
+          let (eneg, t) := match t with
+            | 45 :: u => (true, u)
+            | 43 :: u => (false, u)
+            | u => (false, u)
+          let (ed, _) := takeDigits t
+          if ed.isEmpty then 0 else (if eneg then -(digitsVal ed 0 : Int) else (digitsVal ed 0 : Int))
+        else 0
+      | [] => 0
+    let hv := hexVal' (ih ++ fh) 0
+    let e2 : Int := ex - 4 * fh.length
+    if hv == 0 then sg
+    else if e2 > 5000 then sg + 2047 * 2 ^ 52
+    else if e2 < -5000 then sg
+    else if e2 ≥ 0 then sg + dOfRat (hv * 2 ^ e2.toNat) 1
+    else sg + dOfRat hv (2 ^ (-e2).toNat)
   else
     let (ip, r) := takeDigits s
     let (fp, r) := match r with
